@@ -5,6 +5,7 @@ from __future__ import annotations
 import itertools
 import multiprocessing as mp
 import os
+import signal
 import tempfile
 
 from vt import core, exa
@@ -15,6 +16,24 @@ from vt.ref import flowvpls, wire
 LOCAL_ADDR4 = '127.0.0.1'
 EXTRA_FAMILIES = [(1, 133), (2, 133), (1, 134), (25, 65)]
 HANDLED_BY_CALLBACK = (ValueError, IndexError)   # what every announce_* callback answers `error` for by name
+HANG_LIMIT_S = float(os.environ.get('C18_HANG_LIMIT_S', '6'))   # the slowest legitimate parse (1100 list members) takes ~0.5 s
+
+
+class Hang(BaseException):
+    """raised by the alarm inside an entry point which does not return (BaseException: `except Exception` must not eat it)"""
+
+
+def guarded(fn, *args):
+    def on_alarm(signum, frame):
+        raise Hang()
+    old = signal.signal(signal.SIGALRM, on_alarm)
+    signal.setitimer(signal.ITIMER_REAL, HANG_LIMIT_S)
+    try:
+        return fn(*args)
+    finally:
+        signal.setitimer(signal.ITIMER_REAL, 0)
+        signal.signal(signal.SIGALRM, old)
+
 
 # ---------------------------------------------------------------------------------------------
 # sessions: iBGP/eBGP x ASN4 on/off x ADD-PATH on/off x 4096/65535
@@ -207,7 +226,9 @@ def run_api(g, text):
     """-> dict(status=accepted|refused|exception, etype, msg, routes)"""
     reset_state()
     try:
-        routes = api_call(g, text)
+        routes = guarded(api_call, g, text)
+    except Hang:
+        return dict(status='hang', msg=f'no answer within {HANG_LIMIT_S:g} s', routes=None)
     except HANDLED_BY_CALLBACK as e:
         return dict(status='refused', how='raised-' + type(e).__name__, msg=_exc_text(e), routes=None)
     except Exception as e:  # noqa: BLE001
@@ -287,7 +308,7 @@ def run_cb(g, text):
     api = get_api()
     reactor = StubReactor()
     api.reactor = reactor
-    try:
+    def drive():
         api.process(reactor, 'svc', 'announce ' + text)
         for coro in reactor.asynchronous.queue:
             try:
@@ -295,6 +316,10 @@ def run_cb(g, text):
                     coro.send(None)
             except StopIteration:
                 pass
+    try:
+        guarded(drive)
+    except Hang:
+        return dict(status='hang', msg=f'no answer within {HANG_LIMIT_S:g} s', routes=None)
     except Exception as e:  # noqa: BLE001
         for coro in reactor.asynchronous.queue:
             coro.close()
@@ -342,7 +367,9 @@ def run_config(section):
         f.write(config_text(section))
     reset_state()
     try:
-        cfg, ok = exa.parse_config_file(path)
+        cfg, ok = guarded(exa.parse_config_file, path)
+    except Hang:
+        return dict(status='hang', msg=f'Configuration.reload() did not return within {HANG_LIMIT_S:g} s', routes=None)
     except Exception as e:  # noqa: BLE001
         return dict(status='exception', etype=type(e).__name__, msg='escaped Configuration.reload(): ' + _exc_text(e), routes=None)
     if ok is True:
@@ -359,7 +386,9 @@ def run_config(section):
         reset_state()
         c2 = Configuration([path])
         try:
-            c2._reload()
+            guarded(c2._reload)
+            under = None
+        except Hang:
             under = None
         except Error:
             under = 'Error'
@@ -608,6 +637,8 @@ def judge(g, path, form, devs, out, sess):
     viols = []
     st = out['status']
     names = ' + '.join(d.key for d in devs) or 'base'
+    if st == 'hang':
+        return 'hang', [(None, 'hang', f'the entry point does not return: {out["msg"]}')]
     if st == 'exception':
         return f'exception:{out["etype"]}', [(None, f'exception:{out["etype"]}', f'unhandled {out["msg"]}')]
     if st == 'laundered':
@@ -733,8 +764,17 @@ def pair_ok(a, b):
     return True
 
 
+_CASES = {}
+
+
 def enumerate_cases(tier):
     """-> (singles, pairs): lists of case dicts, deterministic order"""
+    if tier not in _CASES:
+        _CASES[tier] = _enumerate_cases(tier)
+    return _CASES[tier]
+
+
+def _enumerate_cases(tier):
     G = T.grammars()
     singles, pairs = [], []
     for gname, g in G.items():
@@ -802,11 +842,15 @@ def worker(args):
     cases = singles if phase == 'single' else pairs
     sess = sess_for(tier)
     G = T.grammars()
-    res = {'exec': 0, 'viol': {}, 'outcomes': {}, 'nontrivial': 0, 'samples': [], 'single_index': [], 'explained': 0, 'by_path': {}}
+    res = {'exec': 0, 'viol': {}, 'outcomes': {}, 'nontrivial': 0, 'samples': [], 'single_index': [], 'explained': 0, 'by_path': {}, 'hang_pairs_skipped': 0}
     for idx, case in enumerate(cases):
         if idx % nshards != shard:
             continue
         g = G[case['g']]
+        if phase == 'pair' and any((case['path'], case['g'], case['form'], k, 'hang') in single_index for k in case['devs']):
+            # a deviation which alone makes the entry point loop for ever does so in every pair: not re-run (HANG_LIMIT_S each)
+            res['hang_pairs_skipped'] += 1
+            continue
         lab, viols, text = run_case(case, sess)
         if lab == 'skipped':
             continue
@@ -841,6 +885,7 @@ def _merge(ctx, res, agg):
     for k, n in res['by_path'].items():
         agg['by_path'][k] = agg['by_path'].get(k, 0) + n
     agg['explained'] += res['explained']
+    agg['hang_pairs_skipped'] += res['hang_pairs_skipped']
     agg['single_index'].update(res['single_index'])
     for smp in res['samples']:
         ctx.sample(smp)
@@ -871,7 +916,7 @@ def run(ctx: core.Ctx) -> None:
                         'an attribute set too large for the negotiated message size may be accepted and not sent (the size is not known when parsing)',
                         'a keyword given twice may send either value', 'tolerances of C01 (attribute order, LOCAL_PREF on eBGP, as-path as given or with the local AS prepended)']
     nshards = 192
-    agg = {'outcomes': {}, 'by_path': {}, 'explained': 0, 'single_index': set(), 'viol': {}}
+    agg = {'outcomes': {}, 'by_path': {}, 'explained': 0, 'hang_pairs_skipped': 0, 'single_index': set(), 'viol': {}}
     pool = mp.Pool(min(16, os.cpu_count() or 1))
     try:
         order = list(range(nshards))
@@ -890,6 +935,7 @@ def run(ctx: core.Ctx) -> None:
     ctx.counters['singles'] = len(singles)
     ctx.counters['pairs'] = len(pairs)
     ctx.counters['pair_violations_explained_by_a_single'] = agg['explained']
+    ctx.counters['pairs_not_run_because_one_member_hangs_alone'] = agg['hang_pairs_skipped']
     for k, n in sorted(agg['by_path'].items()):
         ctx.counters[f'path_{k}'] = n
     ctx.coverage_extra['outcomes'] = dict(sorted(agg['outcomes'].items()))
